@@ -154,6 +154,64 @@ def _star_of(L: Lang, d) -> object:
     return minimise(B.lang_dfa(end, {end}))
 
 
+def param_constraints(cx: Cx, ob: Ob, fn, handler, d: str, line: int) -> None:
+    """FastAPI validates path parameters before the handler runs: a constraint narrower than the
+    captured group answers FastAPI's own 422 for requests the library can resolve."""
+    import ast as _ast
+
+    from ..analyses.relang import collect_atoms
+    from ..model import AnalysisError
+
+    for p in handler.params:
+        dflt = p.default
+        if not isinstance(dflt, _ast.Call) or _ast.unparse(dflt.func).rsplit(".", 1)[-1] not in ("Path", "Query", "Param"):
+            continue
+        for kw in dflt.keywords:
+            if kw.arg in ("pattern", "regex"):
+                try:
+                    pat = cx.model.fold(handler.module, kw.value)
+                except AnalysisError as e:
+                    ob.undecide(f"fastapi: validation pattern of `{p.name}` is not a foldable constant ({e.reason})")
+                    continue
+                if not isinstance(pat, str):
+                    ob.undecide(f"fastapi: validation pattern of `{p.name}` is not a string")
+                    continue
+                import re._parser as _P
+
+                atoms = [[(47, 47)], [(10, 10)], [(0, 31)], [(127, 159)]] + [[(ord(ch), ord(ch))] for ch in d]
+                try:
+                    collect_atoms(_P.parse(pat), atoms)
+                    alpha = Alphabet(atoms)
+                    L = Lang(alpha)
+                    allowed = L.regex(pat, "search")
+                except Exception as e:  # noqa: BLE001
+                    ob.undecide(f"fastapi: validation pattern of `{p.name}` not analysable: {e}")
+                    continue
+                bad = alpha.classes_of_intervals([(0, 31), (127, 159)])
+                safe = alpha.all - bad
+                slash = alpha.classes_of_chars("/")
+                SEG = inter(L.star(safe - slash), L.nonempty())
+                need = SEG if p.name == "prefix" else inter(L.star(safe), L.nonempty())
+                w = witness(minus(need, allowed))
+                ob.site(f"{where(fn, line)} {handler.qualname}", f"d={d!r}: parameter `{p.name}` validated against {pat[:40]!r}")
+                if w is not None:
+                    ob.violate(
+                        handler.qualname,
+                        where(fn, dflt.lineno),
+                        f"FastAPI validates path parameter `{p.name}` against {pat[:60]!r}, which rejects {alpha.word(w)!r}: requests whose {p.name} is known to the converter are answered by FastAPI's validation error instead of a redirect, and differently from Flask",
+                        witness=f"shortest captured value not accepted: {alpha.word(w)!r} (e.g. prefixes starting with a digit such as '3dmet')",
+                        detail=f"param-pattern:{p.name}",
+                    )
+            elif kw.arg == "max_length":
+                ob.violate(handler.qualname, where(fn, dflt.lineno), f"FastAPI limits the length of path parameter `{p.name}`: longer known prefixes / identifiers are rejected before the handler runs", detail=f"param-max-length:{p.name}")
+            elif kw.arg == "min_length":
+                v = kw.value.value if isinstance(kw.value, _ast.Constant) else None
+                if not isinstance(v, int):
+                    ob.undecide(f"fastapi: min_length of `{p.name}` is not a literal")
+                elif v > 1:
+                    ob.violate(handler.qualname, where(fn, dflt.lineno), f"FastAPI requires path parameter `{p.name}` to have at least {v} characters: shorter known prefixes / identifiers are rejected before the handler runs", detail=f"param-min-length:{p.name}")
+
+
 @obligation("C17-D1", "RELANG route languages: for every delimiter d, every required path /P d I (I with '/'-separated segments, possibly containing d) is matched by the Flask and by the FastAPI route", floor=4)
 def d1(cx: Cx, ob: Ob) -> None:
     rts = routes(cx, ob)
@@ -199,6 +257,8 @@ def d1(cx: Cx, ob: Ob) -> None:
                     witness=f"route regex {rx!r}; shortest required path not matched: {path!r}",
                     detail=f"route-misses:{'slash' if '/' in path[1:].split(d, 1)[-1] else 'other'}",
                 )
+            if fw == "fastapi" and handler is not None:
+                param_constraints(cx, ob, fn, handler, d, line)
             names = [n for n, _ in groups]
             if names[:2] != ["prefix", "identifier"] or len(names) != 2:
                 ob.violate(fn.qualname, where(fn, line), f"the {fw} route captures {names}; expected prefix then identifier", detail="groups")
@@ -337,3 +397,10 @@ def d3(cx: Cx, ob: Ob) -> None:
             ob.violate(handler.qualname, handler.where, f"the {fw} handler has no failure answer for unknown prefixes", detail="no-failure")
         if not succ:
             ob.violate(handler.qualname, handler.where, f"the {fw} handler has no success answer", detail="no-success")
+
+
+@obligation("C17-X2", "the resolver apps keep a reference to the converter (and may capture its tables): lookup tables are maintained in place by _index and never rebound after construction, and no query method writes converter state (shared with C05)", floor=5)
+def x2(cx: Cx, ob: Ob) -> None:
+    from ..rules import state_closure
+
+    state_closure(cx, ob)
